@@ -174,7 +174,10 @@ def execute_filter_pair(case):
     raised, result = '', None
     try:
         cls = getattr(ssj, FILTERS[case['filt']])
-        flt = cls(tokenizer, case['meas'], thr, allow_empty=bool(case.get('ae', 1)), allow_missing=False)
+        if case['filt'] == 'OVERLAP':
+            flt = cls(tokenizer, thr, case['op'], allow_missing=False)
+        else:
+            flt = cls(tokenizer, case['meas'], thr, allow_empty=bool(case.get('ae', 1)), allow_missing=False)
         rows = []
         for lkey, lv in zip(ltable[lk].tolist(), ltable[la].tolist()):
             if is_missing(lv):
